@@ -284,6 +284,16 @@ class CallbackSpec:
             return ('ok', c[1], c[2])
         return None
 
+    def yields_default_error(self, cb, idxs):
+        """does the recorded return value stand for the *default* error (false, None) rather than a value or Err(e)?"""
+        kind = self.tables[idxs[0]].cb_kind
+        ret = cb[4]
+        if kind == 'bool':
+            return ret is False
+        if kind in ('option', 'option_unit'):
+            return canon_v(ret)[1] != 1
+        return False
+
     def actual(self, kind, item, ss, ee):
         if kind == 'skip':
             return ('skip',)
@@ -411,8 +421,14 @@ def explore_step(prog, d, tables, N, start, *, partial=False, props=None, is_rel
                     exp = cbspec.expected(cb, idxs, errcbs)
                     got = cbspec.actual(kind, item if ai == len(attempts) - 1 else None, ss, ee)
                     if exp is not None and exp != got:
-                        res.fail(ex, 'C13', f'callback {cbspec.short(cb[1])} returned {cbspec.show(cb[4])} but the lexer produced '
-                                            f'{got}, documented: {exp}')
+                        # which error value a rejecting callback yields is also C02's last sentence
+                        tags = ('C13', 'C02') if (exp[0] == 'err' or got[0] == 'err') else 'C13'
+                        res.fail(ex, tags, f'callback {cbspec.short(cb[1])} returned {cbspec.show(cb[4])} but the lexer produced '
+                                           f'{got}, documented: {exp}')
+                    if exp is not None and exp[0] == 'err' and exp == ('err', cbspec.default_error(errcbs)) and cbspec.has_error_cb \
+                            and cb[4] is not None and cbspec.yields_default_error(cb, idxs) and len(errcbs) != 1:
+                        res.fail(ex, ('C02', 'C13'), f'callback {cbspec.short(cb[1])} asked for the default error but the error '
+                                                     f'callback ran {len(errcbs)} times')
                     if kind != 'none' and conc(cb[5]) != ee:
                         res.fail(ex, 'C13', f'item after callback ends at {ee} but the callback left the lexer at {cb[5]}')
                 elif kind == 'skip':
